@@ -29,6 +29,7 @@ def tasks(tier, seed):
     t = [{"sub": "triples", "shard": i} for i in range(4)]
     t += [{"sub": "temperature", "shard": i} for i in range(2)]
     t += [{"sub": "cross", "shard": 0}, {"sub": "numbers", "shard": 0}, {"sub": "floats", "shard": 0}, {"sub": "units", "shard": 0}]
+    t += [{"sub": "compound", "shard": i} for i in range(2)] + [{"sub": "inplace", "shard": 0}, {"sub": "context", "shard": 0}]
     return t
 
 
@@ -397,11 +398,151 @@ def run_units(task, tier, seed, col):
     hyp_search(col, strat, lambda c: case_unit(c, col), max_examples=500 if tier == "quick" else 8000, seed=seed * 61)
 
 
+# ------------------------------------------------------------------------------------- compound units, neighbouring exponents
+
+def _compound_strategy():
+    classes = _classes()
+    keys = sorted(k for k in classes if len(classes[k]) >= 2)
+    xs = st.one_of(st.integers(1, 20), st.fractions(1, 50, max_denominator=12))
+
+    @st.composite
+    def strat(draw):
+        k1, k2 = draw(st.sampled_from(keys)), draw(st.sampled_from(keys))
+        u1, u2 = draw(st.sampled_from(classes[k1])), draw(st.sampled_from(classes[k1]))
+        t1, t2 = draw(st.sampled_from(classes[k2])), draw(st.sampled_from(classes[k2]))
+        return {"u1": u1, "u2": u2, "t1": t1, "t2": t2, "x": draw(xs), "exps": draw(st.sampled_from([[-1, -2], [-2, -1], [1, 2], [-1, -3], [2, -2]])), "perturb": draw(st.sampled_from([0, 0, 1, -1]))}
+
+    return strat()
+
+
+def case_compound(case, col=None):
+    """Quantities in compound units u * t**e, the same value re-expressed in u' * t'**e, for two neighbouring exponents in a row on one
+    registry (the second comparison must not be answered with the conversion of the first)."""
+    R = env.R()
+    ureg = env.ureg("Fraction")
+    x = Fraction(case["x"])
+    f = lambda n: Fraction(R.resolve(n).factor)  # noqa: E731
+    if col is not None:
+        col.case(("cp", str(case)), case["u1"] != case["u2"] or case["t1"] != case["t2"], sample=case, cls="compound")
+    for e in case["exps"]:
+        a_units = ureg.UnitsContainer({case["u1"]: 1}) * ureg.UnitsContainer({case["t1"]: e})
+        b_units = ureg.UnitsContainer({case["u2"]: 1}) * ureg.UnitsContainer({case["t2"]: e})
+        va = x * f(case["u1"]) * f(case["t1"]) ** e
+        y = va / (f(case["u2"]) * f(case["t2"]) ** e) + case["perturb"]
+        vb = y * f(case["u2"]) * f(case["t2"]) ** e
+        same = True
+        rel_check(ureg.Quantity(x, a_units), ureg.Quantity(y, b_units), va, vb, same, f"Q({x},{dict(a_units)}) vs Q({y},{dict(b_units)})")
+
+
+def run_compound(task, tier, seed, col):
+    hyp_search(col, _compound_strategy(), lambda c: case_compound(c, col), max_examples=600 if tier == "quick" else 10000, seed=seed * 331 + task["shard"])
+
+
+# ------------------------------------------------------------------------------------- quantities changed in place
+
+def _inplace_strategy():
+    classes = _classes()
+    keys = sorted(k for k in classes if len(classes[k]) >= 2)
+
+    @st.composite
+    def strat(draw):
+        k = draw(st.sampled_from(keys))
+        ua, ub, uc = (draw(st.sampled_from(classes[k])) for _ in range(3))
+        return {"ua": ua, "ub": ub, "uc": uc, "x": draw(st.integers(1, 40)), "d": draw(st.integers(1, 9)), "prime": draw(st.sampled_from(["none", "dimensionality", "compare", "hash", "dimensionless"])),
+                "op": draw(st.sampled_from(["//=", "/=", "*=inv"]))}
+
+    return strat()
+
+
+def case_inplace(case, col=None):
+    """A quantity that has been looked at (dimensionality, an ordering, its hash) and is then turned into a pure number in place compares
+    and hashes like that number."""
+    R = env.R()
+    ureg = env.ureg("Fraction")
+    f = lambda n: Fraction(R.resolve(n).factor)  # noqa: E731
+    x, d = Fraction(case["x"]), Fraction(case["d"])
+    q = ureg.Quantity(x, case["ua"])
+    if col is not None:
+        col.case(("ip", str(case)), case["prime"] != "none", sample=case, cls=f"{case['prime']}:{case['op']}")
+    if case["prime"] == "dimensionality":
+        q.dimensionality
+    elif case["prime"] == "compare":
+        q > ureg.Quantity(1, case["ub"])
+    elif case["prime"] == "hash":
+        hash(q)
+    elif case["prime"] == "dimensionless":
+        q.dimensionless, q.unitless
+    other = ureg.Quantity(d, case["uc"])
+    ratio = x * f(case["ua"]) / (d * f(case["uc"]))
+    if case["op"] == "//=":
+        q //= other
+        n = Fraction(ratio.numerator // ratio.denominator)
+    elif case["op"] == "/=":
+        q /= other
+        n = ratio
+    else:
+        q *= 1 / other
+        n = ratio
+    what = f"Q({x},{case['ua']}) (after {case['prime']}) {case['op']} Q({d},{case['uc']})"
+    for tag, fn, want in (("q==n", lambda: q == n, True), ("n==q", lambda: n == q, True), ("q!=n", lambda: q != n, False), ("q==n+1", lambda: q == n + 1, False), ("q<n+1", lambda: q < n + 1, True),
+                          ("q>n+1", lambda: q > n + 1, False), ("q>=n", lambda: q >= n, True), ("q==Q(n)", lambda: q == ureg.Quantity(n, ""), True), ("Q(n)==q", lambda: ureg.Quantity(n, "") == q, True)):
+        s_, v = attempt(fn)
+        if s_ == "err":
+            raise Violation(f"inplace_then_number:{tag}:raised:{exc_class(v)}", f"{what}: {tag} raised {v!r} (the quantity is the number {n})")
+        if bool(v) != want:
+            raise Violation(f"inplace_then_number:{tag}", f"{what}: {tag} is {v}, the quantity is the number {n}")
+    if hash(q) != hash(n):
+        raise Violation("inplace_then_number:hash", f"{what}: hash differs from hash({n})")
+
+
+def run_inplace(task, tier, seed, col):
+    hyp_search(col, _inplace_strategy(), lambda c: case_inplace(c, col), max_examples=500 if tier == "quick" else 8000, seed=seed * 337 + task["shard"])
+
+
+# ------------------------------------------------------------------------------------- ordering across dimensions while a context is active
+
+CTX_PAIRS = [("sp", "nanometer", "terahertz"), ("sp", "meter", "hertz"), ("sp", "electron_volt", "nanometer"), ("boltzmann", "kelvin", "electron_volt"), ("chemistry", "mole", "gram")]
+
+
+def case_context(case, col=None):
+    """An active context makes conversions between two dimensions possible; it does not make them comparable: == stays False, ordering
+    raises DimensionalityError."""
+    import pint
+
+    ureg = env.ureg("float")
+    name, ua, ub = CTX_PAIRS[case["pair"] % len(CTX_PAIRS)]
+    x, y = case["x"], case["y"]
+    if col is not None:
+        col.case(("cx", name, ua, ub, x, y), True, sample={"context": name, "a": [x, ua], "b": [y, ub]}, cls=name)
+    kw = {"mw": ureg.Quantity(18.0, "g/mol")} if name == "chemistry" else {}
+    with ureg.context(name, **kw):
+        a, b = ureg.Quantity(x, ua), ureg.Quantity(y, ub)
+        for tag, fn in (("<", lambda: a < b), (">", lambda: a > b), ("<=", lambda: a <= b), (">=", lambda: b >= a)):
+            s_, v = attempt(fn)
+            if s_ == "ok":
+                raise Violation("ordering_across_dimensions_returned:context", f"inside context {name!r}: Q({x},{ua}) {tag} Q({y},{ub}) returned {v!r}")
+            if not isinstance(v, pint.DimensionalityError):
+                raise Violation(f"ordering_across_dimensions_wrong_exception:context:{exc_class(v)}", f"{v!r}")
+        if (a == b) or not (a != b):
+            raise Violation("eq_disagrees:false_positive:context", f"inside context {name!r}: Q({x},{ua}) == Q({y},{ub})")
+
+
+def run_context(task, tier, seed, col):
+    strat = st.builds(lambda p, x, y: {"pair": p, "x": x, "y": y}, st.integers(0, len(CTX_PAIRS) - 1), st.sampled_from([0.0, 1.0, 500.0, 2.5]), st.sampled_from([0.0, 1.0, 600.0, 299792458.0]))
+    hyp_search(col, strat, lambda c: case_context(c, col), max_examples=80 if tier == "quick" else 400, seed=seed * 347)
+
+
 def run_task(task, tier, seed, col):
+    extra = {"compound": run_compound, "inplace": run_inplace, "context": run_context}
+    if task["sub"] in extra:
+        return extra[task["sub"]](task, tier, seed, col)
     {"triples": run_triples, "temperature": run_temperature, "cross": run_cross, "numbers": run_numbers, "floats": run_floats,
      "units": run_units}[task["sub"]](task, tier, seed, col)
 
 
 def replay(sub, case):
+    extra = {"compound": case_compound, "inplace": case_inplace, "context": case_context}
+    if sub in extra:
+        return extra[sub](case)
     return {"triples": case_triple, "temperature": case_temp, "cross": case_cross, "numbers": case_number, "floats": case_float,
             "units": case_unit}[sub](case)
